@@ -480,10 +480,14 @@ def recipes(thorough, rng):
             for fill in (("x", "9", "-") if thorough else ("x",)):
                 for front in (fronts if not point.startswith("StartSync") else ["asyncio"]):
                     R.append({"point": point, "n": n, "fill": fill, "front": front})
-    types = ["STANDARD"] + (["EXPRESS"] if thorough else [])
+    # (EXPRESS at the quick tier: the outputs of the states that END the execution only -- the one enforcement point that is
+    # reached through end_execution rather than change_state; the thorough tier runs every point for both types)
+    types = ["STANDARD", "EXPRESS"]
     for typ in types:
         for term in (False, True):
-            for kind in kinds:
+            if typ == "EXPRESS" and not thorough and not term:
+                continue
+            for kind in kinds if (thorough or typ == "STANDARD") else kinds[:1]:
                 for n in sizes:
                     if n < MIN_N[kind] + 4:
                         continue
